@@ -5147,12 +5147,14 @@ class _MultipleMatch(ParseElementEnhance):
         try:
             hasIgnoreExprs = not not self.ignoreExprs
             while 1:
-                if check_ender:
-                    try_not_ender(instring, loc)
                 if hasIgnoreExprs:
                     preloc = self_skip_ignorables(instring, loc)
                 else:
                     preloc = loc
+                # look for the stop_on sentinel behind the ignorables, where
+                # the next repetition would start
+                if check_ender:
+                    try_not_ender(instring, preloc)
                 loc, tmptokens = self_expr_parse(instring, preloc, do_actions)
                 tokens += tmptokens
         except (ParseException, IndexError):
